@@ -83,6 +83,9 @@ func matchName(name, pat string) bool {
 
 func (e *Engine) contractFor(name string) *Contract {
 	name = strings.TrimSuffix(name, "$bound")
+	if a, ok := e.spec.Aliases[name]; ok {
+		name = a
+	}
 	if c, ok := e.spec.Contracts[name]; ok {
 		return c
 	}
@@ -381,6 +384,17 @@ func (e *Engine) execCall(st *State, fr *Frame, instr ssa.Instruction, c *ssa.Ca
 }
 
 func (e *Engine) applyCall(st *State, fr *Frame, instr ssa.Instruction, c *ssa.CallCommon, callee Val, args []Val, mode string, k callK) {
+	if r := callee.ref(0); r != nil && r.Fn == nil && len(r.Alts) > 0 && !c.IsInvoke() && c.StaticCallee() == nil {
+		// the callee is one of several known functions, depending on the path taken: one call per alternative
+		for _, alt := range r.Alts {
+			s2 := st.clone()
+			s2.assume(alt.Guard)
+			cv := callee
+			cv.R = []*Refine{alt.R}
+			e.applyCall(s2, fr, instr, c, cv, args, mode, k)
+		}
+		return
+	}
 	name := e.calleeName(c, callee)
 	pos := instr.Pos()
 	var resT types.Type = c.Signature().Results()
@@ -678,6 +692,11 @@ func (e *Engine) checkRequires(st *State, fr *Frame, ct *Contract, fn *ssa.Funct
 		env := &Env{e: e, st: st, old: st, fr: nil, names: names, site: site, pkg: e.pkgOfContract(ct, fn)}
 		g, err := e.EvalBool(env, cl.E)
 		if err != nil {
+			if len(args) > 0 && isInterface(args[0].T) {
+				// call through an interface: the precondition speaks about the concrete receiver, which is not known here
+				e.warn("precondition %s of %s not checked at an interface call site (assumed)", cl.Label, ct.Func)
+				continue
+			}
 			e.specError(fr, "requires of %s: %v", ct.Func, err)
 			continue
 		}
